@@ -56,7 +56,7 @@ type workerOpts struct {
 
 func runWorker(jobs []job, wo workerOpts) workerOut {
 	cmd := exec.Command(os.Args[0])
-	env := append(os.Environ(), "C11_WORKER=1", "GOMAXPROCS=2", "GOTRACEBACK=all")
+	env := append(os.Environ(), "C11_WORKER=1", "GOMAXPROCS=1", "GOGC=100", "GOTRACEBACK=all")
 	if wo.asGiB > 0 {
 		env = append(env, "C11_AS_GIB="+strconv.Itoa(wo.asGiB))
 	}
@@ -377,7 +377,14 @@ func (p *pool) record(b []pending, reports []caseReport) {
 }
 
 func (p *pool) runBatch(b []pending) {
-	atomic.AddInt64(&p.batches, 1)
+	if n := atomic.AddInt64(&p.batches, 1); n == 40 && os.Getenv("C11_DUMPJOBS") != "" {
+		if fh, err := os.Create(os.Getenv("C11_DUMPJOBS")); err == nil {
+			for i := range b {
+				writeJob(fh, job{id: uint32(i), mask: b[i].mask, input: b[i].input})
+			}
+			fh.Close()
+		}
+	}
 	start := 0
 	for start < len(b) {
 		if p.stopped.Load() {
